@@ -1,6 +1,6 @@
 (* C18 -- The execution history records every run once; queries return the
    window.  Property theorems only; proofs live in Proofs/ChronProofs.v. *)
-From DV Require Import Model.Chron Proofs.ChronProofs.
+From DV Require Import Model.Chron Proofs.ChronProofs Proofs.ChronStats.
 From Coq Require Import List ZArith Bool Sorting.Sorted Sorting.Permutation.
 Import ListNotations.
 Open Scope Z_scope.
@@ -102,6 +102,27 @@ Proof.
 Qed.
 Print Assumptions C18_after.
 
+(* ---- the front-end consumer of the history (fe/api: df_model_statistics for
+   a node that is neither executing nor pending): of the recorded failed and
+   succeeded entries of the node completed strictly between boot_time and now
+   it reports the run with the highest id, that run's latest completion and
+   whether that run failed (1), succeeded (0) or both (2); nothing recorded:
+   the empty answer ---- *)
+Theorem C18_stats : forall c j boot now task,
+  cal_ok c -> wf j ->
+  let F := node_window j boot now task 1 in
+  let S := node_window j boot now task 0 in
+  (F ++ S = [] -> stats c j boot now task = Some NoStat) /\
+  (F ++ S <> [] ->
+   exists d r st, stats c j boot now task = Some (Stat d r st) /\
+     is_max r (map e_runid (F ++ S)) /\
+     is_max d (map e_completed (of_run r (F ++ S))) /\
+     (st = 0 <-> of_run r F = []) /\
+     (st = 1 <-> of_run r F <> [] /\ of_run r S = []) /\
+     (st = 2 <-> of_run r F <> [] /\ of_run r S <> [])).
+Proof. exact C_stats. Qed.
+Print Assumptions C18_stats.
+
 (* ---- the day walk terminates within its fuel for every argument ---- *)
 Theorem C18_walk_terminates : forall c j after before limit succ now,
   cal_ok c -> Chron.find c j after before limit succ now <> OutOfFuel.
@@ -124,6 +145,12 @@ Example C18_window_example :
   = [2; 1] /\
   ids (Chron.find greg ex_journal None (Some (tick 2026 1 10 9 0)) (Some 3) true 0) = [2; 1; 3].
 Proof. split; [apply C_wf_history|split; vm_compute; reflexivity]. Qed.
+
+(* statistics of the witness journal: task 0 last ran as run 3 and succeeded *)
+Example C18_stats_example :
+  stats greg ex_journal (tick 2026 1 1 0 0) (tick 2026 2 1 0 0) 0 = Some (Stat (tick 2026 1 9 9 0) 3 0)
+  /\ node_window ex_journal (tick 2026 1 1 0 0) (tick 2026 2 1 0 0) 0 0 <> [].
+Proof. split; [vm_compute; reflexivity|vm_compute; discriminate]. Qed.
 
 (* a second append to the same (day, run id) file keeps the first entry *)
 Example C18_append_example :
